@@ -2,6 +2,7 @@
 Engine E1, single step from every state of the depth-1 frontier of C03's alphabet plus
 curved objects."""
 import copy
+import math
 import inspect
 import warnings
 
@@ -121,11 +122,16 @@ def run_case(case):
             if centre_like:
                 sz = _size(g0)
                 targets = [("origin", np.zeros(3)), ("123", np.array([1.0, 2.0, 3.0]) * sz / 4.0), ("far", np.asarray(cur, float) + np.array([-6.0, 0.5, 8.0]) * sz)]
+                # the same kind of target written with integers (what a user types: centroid = (0, 0, 0))
+                targets += [("origin-int-tuple", (0, 0, 0))]
+                if sz >= 0.5:  # (a unit-sized target is ~1e4 sizes away from the tiny start states: ill-conditioned)
+                    targets += [("int-array", np.array([1, -2, 3]) * max(1, int(round(sz))))]
                 if hasattr(start, "vertices"):
                     targets += [("malformed-2", (1.5, -2.5)), ("malformed-4", (1.0, 2.0, 3.0, 4.0)), ("malformed-None", None)]
             else:
                 c0 = float(cur) if cur is not None else 1.0
-                targets = [("x%g" % k, c0 * k) for k in POS] + [("zero", 0.0), ("minus-one", -1.0), ("minus-current", -abs(c0) if c0 else -2.0), ("nan", float("nan"))]
+                big = max(1, int(math.ceil(c0 * 2)))
+                targets = [("x%g" % k, c0 * k) for k in POS] + [("int", big), ("np.int64", np.int64(big + 1))] + [("zero", 0.0), ("minus-one", -1.0), ("minus-current", -abs(c0) if c0 else -2.0), ("nan", float("nan"))]
             for tag, val in targets:
                 for warm in ((False, True) if (tag in ("x2", "far") and not case["prefix"]) or (tag == "x2" and len(case["prefix"]) == 1 and case["prefix"][0].startswith("call:")) else (False,)):
                     obj = copy.deepcopy(start)
